@@ -384,6 +384,62 @@ func crc32Table() [256]uint32 {
 	return t
 }
 
+// crcTableVar: the CRC table of util/hash, found by shape — the package-level variable initialised
+// with a 256-entry literal of integers (in whichever file of the package, under whatever name).
+func crcTableVar(p *core.Program) (name *ast.Ident, lit *ast.CompositeLit) {
+	pk := p.Pkg("util/hash")
+	if pk == nil {
+		return nil, nil
+	}
+	for _, f := range pk.Syntax {
+		if core.IsCanaryFile(p.Fset.Position(f.Pos()).Filename) {
+			continue
+		}
+		for _, d := range f.Decls {
+			gd, ok := d.(*ast.GenDecl)
+			if !ok || gd.Tok != token.VAR {
+				continue
+			}
+			for _, sp := range gd.Specs {
+				vs := sp.(*ast.ValueSpec)
+				for i, nm := range vs.Names {
+					if i >= len(vs.Values) {
+						continue
+					}
+					cl, ok := vs.Values[i].(*ast.CompositeLit)
+					if !ok {
+						continue
+					}
+					var et types.Type
+					switch t := pk.TypesInfo.TypeOf(cl).Underlying().(type) {
+					case *types.Array:
+						et = t.Elem()
+					case *types.Slice:
+						et = t.Elem()
+					}
+					if et == nil {
+						continue
+					}
+					if b, ok := et.Underlying().(*types.Basic); !ok || b.Info()&types.IsInteger == 0 {
+						continue
+					}
+					if nm.Name == "table" || len(cl.Elts) >= 200 {
+						return nm, cl
+					}
+				}
+			}
+		}
+	}
+	return nil, nil
+}
+
+func crcTableName(p *core.Program) string {
+	if nm, _ := crcTableVar(p); nm != nil {
+		return nm.Name
+	}
+	return "table"
+}
+
 // checkCRCTable compares the package-level table literal with the regenerated table; one obligation
 // per entry.
 func checkCRCTable(p *core.Program, r *core.Report, rule string) {
@@ -393,50 +449,29 @@ func checkCRCTable(p *core.Program, r *core.Report, rule string) {
 		return
 	}
 	want := crc32Table()
-	for _, f := range pk.Syntax {
-		for _, d := range f.Decls {
-			gd, ok := d.(*ast.GenDecl)
-			if !ok || gd.Tok != token.VAR {
-				continue
-			}
-			for _, sp := range gd.Specs {
-				vs := sp.(*ast.ValueSpec)
-				for i, nm := range vs.Names {
-					if nm.Name != "table" || i >= len(vs.Values) {
-						continue
-					}
-					cl, ok := vs.Values[i].(*ast.CompositeLit)
-					if !ok {
-						r.Undec(rule, "util/hash.table", p.Pos(nm.Pos()), "not a composite literal")
-						return
-					}
-					if len(cl.Elts) != 256 {
-						r.Viol(rule, "util/hash.table length", p.Pos(nm.Pos()), fmt.Sprintf("%d entries, want 256", len(cl.Elts)))
-						return
-					}
-					bad := 0
-					for k, e := range cl.Elts {
-						tv, ok := pk.TypesInfo.Types[e]
-						var got uint64
-						if ok && tv.Value != nil {
-							if u, ok := constant.Uint64Val(tv.Value); ok {
-								got = u
-							} else if s, ok := constant.Int64Val(tv.Value); ok {
-								got = uint64(s)
-							}
-						}
-						c := fmt.Sprintf("util/hash.table[%d]", k)
-						if uint32(got) != want[k] || (got>>32 != 0 && got>>32 != 0xffffffff) {
-							bad++
-							r.Viol(rule, c, p.Pos(e.Pos()), fmt.Sprintf("entry is %#x, CRC-32/IEEE table has %#x: every hash through this entry changes (persisted identifiers)", got, want[k]))
-						} else {
-							r.OK(rule, c, p.Pos(e.Pos()), "")
-						}
-					}
-					return
+	if nm, cl := crcTableVar(p); nm != nil {
+		if len(cl.Elts) != 256 {
+			r.Viol(rule, "util/hash.table length", p.Pos(nm.Pos()), fmt.Sprintf("%d entries, want 256", len(cl.Elts)))
+			return
+		}
+		for k, e := range cl.Elts {
+			tv, ok := pk.TypesInfo.Types[e]
+			var got uint64
+			if ok && tv.Value != nil {
+				if u, ok := constant.Uint64Val(tv.Value); ok {
+					got = u
+				} else if s, ok := constant.Int64Val(tv.Value); ok {
+					got = uint64(s)
 				}
 			}
+			c := fmt.Sprintf("util/hash.table[%d]", k)
+			if uint32(got) != want[k] || (got>>32 != 0 && got>>32 != 0xffffffff) {
+				r.Viol(rule, c, p.Pos(e.Pos()), fmt.Sprintf("entry is %#x, CRC-32/IEEE table has %#x: every hash through this entry changes (persisted identifiers)", got, want[k]))
+			} else {
+				r.OK(rule, c, p.Pos(e.Pos()), "")
+			}
 		}
+		return
 	}
 	r.Undec(rule, "util/hash.table", "-", "table variable not found")
 }
@@ -447,7 +482,7 @@ func checkTableImmutable(p *core.Program, r *core.Report, rule string) {
 	if pk == nil {
 		return
 	}
-	tobj := pk.Types.Scope().Lookup("table")
+	tobj := pk.Types.Scope().Lookup(crcTableName(p))
 	if tobj == nil {
 		r.Undec(rule, "util/hash.table immutable", "-", "table not found")
 		return
@@ -522,7 +557,7 @@ func checkCRCFunc(p *core.Program, r *core.Report, rule, relPkg, fn string, widt
 		return fl
 	}
 	r.Check(bits.Equal(fl.Init, allOnes(width)), rule, c+" init", pos, "accumulator starts all-ones", "accumulator does not start at all-ones: "+fl.Init.String())
-	want := crcSpecStep(width, "table", 64, signExt32)
+	want := crcSpecStep(width, crcTableName(p), 64, signExt32)
 	if fl.Step.HasTop() {
 		r.Undec(rule, c+" step", pos, "step has undetermined bits: "+fl.Step.String())
 	} else if !bits.Equal(fl.Step, want) {
